@@ -6,6 +6,7 @@ SEEDS=${@:-$(ls seeded)}
 for s in $SEEDS; do
   SD=seeded/$s
   P=$(python3 -c "import json;print(json.load(open('$SD/meta.json'))['property'])")
+  if python3 -c "import json,sys;sys.exit(0 if json.load(open('$SD/meta.json')).get('neutralised') else 1)"; then echo "$s NEUTRALISED (no longer breaks the property on the current tree)"; continue; fi
   WT=$(mktemp -d /dev/shm/seedwt-XXXX); chmod 755 $WT
   git -C /repo archive HEAD | tar -x -C $WT
   if ! ( cd $WT && patch -p1 -s < $OLDPWD/$SD/patch.diff ) >/dev/null 2>&1; then echo "$s PATCH-FAILED"; rm -rf $WT; continue; fi
